@@ -92,3 +92,12 @@ CHECKS.update({
 })
 for _k in list(CHECKS):
     NOT_APPLICABLE.pop(_k, None)
+
+CHECKS.update({
+    "C19": dict(level="exploration", ref="DESIGN.md section 6 C19",
+                text="A sweep over 15 stack heights x search depths height-3..height+3 x 4 value heuristics x BC/shaving with red-zone canaries around every stack, and over problem sizes around the uint8/uint16 index types (arity, parameters, shared domains, propagator types); silent wrong answers, written guard rows, a stack pointer going backwards, a crash, or a refusal strictly inside the capacity are violations.",
+                note="the statement does not say whether height h admits h or h-1 pushes: the two boundary depths are a tolerance band; canaries see writes into the 12 guard rows only",
+                technique="red-zone canaries on the engine's stacks + analytically known answers over a capacity sweep"),
+})
+for _k in list(CHECKS):
+    NOT_APPLICABLE.pop(_k, None)
